@@ -372,15 +372,20 @@ class _FPCoreCompileInstance(Visitor):
 
     def _visit_range3(self, start: Expr, stop: Expr, step: Expr, ctx: None) -> fpc.Expr:
         # range(start, stop, step) =>
-        # (tensor ([i (! :precision integer (ceil (/ (- stop start) step)))])
+        # (tensor ([i (! :precision integer (ceil (! :precision binary64 (/ (- stop start) step))))])
         #   (! :precision integer (+ (* i step) start)))
         tuple_id = str(self.gensym.fresh('i'))
         start_expr = self._visit_expr(start, ctx)
         stop_expr = self._visit_expr(stop, ctx)
         step_expr = self._visit_expr(step, ctx)
+        # the quotient is not an integer in general: under `:precision integer` it
+        # would be rounded (5 / 2 to 2) before `ceil` sees it
+        quotient = fpc.Ctx(
+            {'precision': fpc.Data(fpc.Var('binary64'))},
+            fpc.Div(fpc.Sub(stop_expr, start_expr), step_expr),
+        )
         return fpc.Tensor(
-            [(tuple_id, fpc.Ctx(_int_props(),
-                fpc.Ceil(fpc.Div(fpc.Sub(stop_expr, start_expr), step_expr))))],
+            [(tuple_id, fpc.Ctx(_int_props(), fpc.Ceil(quotient)))],
             fpc.Ctx(_int_props(),
                 fpc.Add(fpc.Mul(fpc.Var(tuple_id), step_expr), start_expr))
         )
